@@ -16,6 +16,10 @@ import (
 )
 
 func main() {
+	if os.Getenv("C19_PROBE") != "" {
+		probeMain()
+		return
+	}
 	if os.Getenv("C19_CHILD") != "" {
 		childMain()
 		return
@@ -27,6 +31,7 @@ func main() {
 	harness.Main("C19", "exploration",
 		harness.Layer{Name: "expr", Run: layerExpr},
 		harness.Layer{Name: "stmt", Run: layerStmt},
+		harness.Layer{Name: "ctl", Run: layerCtl},
 		harness.Layer{Name: "state", Run: layerState},
 		harness.Layer{Name: "quirk", Run: layerQuirk},
 		harness.Layer{Name: "crash", Run: layerCrash},
@@ -76,6 +81,13 @@ func init() {
 		}
 		return progSpec{prog: p, nvec: 24}
 	}}
+	layerDefs["ctl"] = layerDef{1200, 50000, func(r *prng.R, c int) progSpec {
+		p := &Prog{}
+		for i := 0; i < 2; i++ {
+			p.Funcs = append(p.Funcs, genCtlFunc(r, fmt.Sprintf("f%d", i)))
+		}
+		return progSpec{prog: p, nvec: 24}
+	}}
 	layerDefs["state"] = layerDef{700, 30000, func(r *prng.R, c int) progSpec {
 		p := &Prog{}
 		for i := 0; i < r.Range(1, 2); i++ {
@@ -91,5 +103,6 @@ func init() {
 
 func layerExpr(h *harness.H)  { rules(h); runLayer(h, "expr") }
 func layerStmt(h *harness.H)  { runLayer(h, "stmt") }
+func layerCtl(h *harness.H)   { runLayer(h, "ctl") }
 func layerState(h *harness.H) { runLayer(h, "state") }
 func layerQuirk(h *harness.H) { runLayer(h, "quirk") }
